@@ -65,9 +65,16 @@ fn gen(t: &mut Tape, _tier: Tier) -> Scenario {
         0 | 1 => {
             let b = gen_lzma(t, 0, 3000);
             opts.mode = t.below(3);
-            let size = if b.marker { None } else { Some(b.expect.len() as u64) };
+            // a third of the marker-terminated streams are decoded with the true size
+            // in effect as well (what the LZMA SDK writes with -eos): the decoder then
+            // stops at the size and leaves the marker unread, whatever the reader does
+            let both = b.marker && t.below(3) == 0;
+            if both {
+                sc.set_i("sized_and_marker", 1);
+            }
+            let size = if b.marker && !both { None } else { Some(b.expect.len() as u64) };
             input = match opts.mode {
-                0 => b.std_file(),
+                0 => b.file(Some(size.unwrap_or(u64::MAX))),
                 1 => {
                     opts.provided = size;
                     b.file(Some(t.u64()))
@@ -166,7 +173,12 @@ fn exec(sc: &Scenario, ctx: &mut Ctx) -> Vec<Violation> {
         0,
     );
     match va {
-        Verdict::Ok => ctx.stats.hit("verdict.ok"),
+        Verdict::Ok => {
+            if sc.i("sized_and_marker") == 1 {
+                ctx.stats.hit("probe.size_in_effect_and_end_marker_present_decoded_ok");
+            }
+            ctx.stats.hit("verdict.ok")
+        }
         Verdict::Err(_) => ctx.stats.hit("verdict.err"),
         Verdict::Panic(_) => ctx.stats.hit("verdict.panic"),
     }
@@ -215,7 +227,7 @@ fn exec(sc: &Scenario, ctx: &mut Ctx) -> Vec<Violation> {
 pub static C13: SimpleProp = SimpleProp {
     id: "C13",
     level: "exploration",
-    rule: "one evaluation = one pair of decodes of the same bytes (valid stream of each format, or bit-flipped / truncated / extended / spliced) — once from a slice exposing everything, once through scripted refills (1 byte, fixed k, random patterns) or a real std BufReader of capacity 1..64 over short reads; verdict kind must match, and on success bytes and consumed count; non-trivial = the fragmented reader needed more than one refill; distinct by (scenario, event log) hash",
+    rule: "(LZMA inputs include marker-terminated streams decoded with the true size in effect as well) one evaluation = one pair of decodes of the same bytes (valid stream of each format, or bit-flipped / truncated / extended / spliced) — once from a slice exposing everything, once through scripted refills (1 byte, fixed k, random patterns) or a real std BufReader of capacity 1..64 over short reads; verdict kind must match, and on success bytes and consumed count; non-trivial = the fragmented reader needed more than one refill; distinct by (scenario, event log) hash",
     runs_quick: 60_000,
     runs_thorough: 24_000_000,
     both_profiles: false,
